@@ -886,8 +886,9 @@ func (e *Enc) targetWrites(ws *writeSet, call *ssa.Call, callee *ssa.Function, t
 		if bt != nil {
 			d, _ := derefType(bt)
 			si := e.reg.structOf(d)
-			name := "G." + si.goName + "." + t.Field
-			ws.coarse[name] = arrSort(e.p.cs.Ghosts[si.goName+"."+t.Field])
+			for _, f := range e.p.ghostFields(si.goName, t.Field) {
+				ws.coarse["G."+si.goName+"."+f] = arrSort(e.p.cs.Ghosts[si.goName+"."+f])
+			}
 		}
 		return
 	}
@@ -998,7 +999,10 @@ func (e *Enc) evalTarget(c *Ctx, t Target) []modRef {
 		b := c.eval(t.Base)
 		d, _ := derefType(b.GT)
 		si := e.reg.structOf(d)
-		out = append(out, modRef{t: t, heapName: "G." + si.goName + "." + t.Field, heapSort: arrSort(e.p.cs.Ghosts[si.goName+"."+t.Field]), ref: b.T})
+		ref := e.def("modref", b.T)
+		for _, f := range e.p.ghostFields(si.goName, t.Field) {
+			out = append(out, modRef{t: t, heapName: "G." + si.goName + "." + f, heapSort: arrSort(e.p.cs.Ghosts[si.goName+"."+f]), ref: ref})
+		}
 		return out
 	}
 	if hasWild(t.Base) {
@@ -1164,4 +1168,21 @@ func (e *Enc) cellTyping(name string, cell Term) {
 	if f.S != "true" {
 		e.emit("(assert %s)", f.S)
 	}
+}
+
+// ghostFields: the ghost fields of a struct named by a modifies target (f or *).
+func (p *Program) ghostFields(structName, f string) []string {
+	if f != "*" {
+		if _, ok := p.cs.Ghosts[structName+"."+f]; !ok {
+			panic(evalError{"unknown ghost field " + structName + "." + f})
+		}
+		return []string{f}
+	}
+	var out []string
+	for _, k := range sortedKeys(p.cs.Ghosts) {
+		if strings.HasPrefix(k, structName+".") {
+			out = append(out, k[len(structName)+1:])
+		}
+	}
+	return out
 }
